@@ -37,6 +37,32 @@ def always_raises(stmts):
     return False
 
 
+EXT_EXC = {
+    "BaseException": None, "Exception": "BaseException", "ValueError": "Exception", "LookupError": "Exception",
+    "KeyError": "LookupError", "IndexError": "LookupError", "AttributeError": "Exception", "TypeError": "Exception",
+    "ArithmeticError": "Exception", "ZeroDivisionError": "ArithmeticError", "OverflowError": "ArithmeticError",
+    "ImportError": "Exception", "StopIteration": "Exception", "RuntimeError": "Exception", "NotImplementedError": "RuntimeError",
+    "AssertionError": "Exception", "NameError": "Exception", "OSError": "Exception",
+    # configparser
+    "Error": "Exception", "NoSectionError": "Error", "DuplicateSectionError": "Error", "DuplicateOptionError": "Error",
+    "NoOptionError": "Error", "InterpolationError": "Error", "InterpolationDepthError": "InterpolationError",
+    "InterpolationMissingOptionError": "InterpolationError", "InterpolationSyntaxError": "InterpolationError",
+    "ParsingError": "Error", "MissingSectionHeaderError": "ParsingError",
+    # cexprtk / pyparsing
+    "ParseException": "Exception", "NameShadowException": "Exception",
+}
+
+
+def ext_exc_subclass(name, base):
+    seen = 0
+    while name is not None and seen < 20:
+        if name == base:
+            return True
+        name = EXT_EXC.get(name)
+        seen += 1
+    return False
+
+
 class LoopCtx(object):
     def __init__(self, var, lo, hi, seq):
         self.var = var
@@ -379,8 +405,15 @@ class StmtMixin(object):
                     return True
                 if isinstance(tv, ExtV) and isinstance(exc.cls, ExtV):
                     a, b = tv.name.split(".")[-1], exc.cls.name.split(".")[-1]
-                    if a == b or a in ("Exception", "BaseException") or (a == "LookupError" and b in ("KeyError", "IndexError")):
+                    if ext_exc_subclass(b, a):
                         return True
+                if isinstance(tv, ExtV) and isinstance(exc.cls, ClassV):
+                    # repo exception class deriving (transitively) from an external one
+                    from .model import ExternalClass
+                    a = tv.name.split(".")[-1]
+                    for c in exc.cls.ci.mro():
+                        if isinstance(c, ExternalClass) and ext_exc_subclass(c.name.split(".")[-1], a):
+                            return True
                 if isinstance(tv, ExtV) and tv.name.split(".")[-1] in ("Exception", "BaseException") and isinstance(exc.cls, ClassV):
                     return True
         return False
